@@ -390,6 +390,23 @@ def materialise(world, scratch):
     return World(base, paths, home)
 
 
+def open_for_unprivileged(w, scratch):
+    """Runs as uid 65534 must be able to reach the world and to own their HOME (the search root's own modes stay as modelled)."""
+    d = w.base
+    while d.startswith(scratch) or d == scratch:
+        try:
+            os.chmod(d, 0o755)
+        except OSError:
+            pass
+        if d == scratch:
+            break
+        d = os.path.dirname(d)
+    for dp, dn, fn in os.walk(w.home):
+        os.chown(dp, 65534, 65534)
+        for f in fn:
+            os.chown(os.path.join(dp, f), 65534, 65534)
+
+
 def snapshot(w, world, digests=False):
     """Ground truth only the OS can give, as arrays indexed by node id (1-based in TLA+)."""
     import pwd
@@ -533,6 +550,7 @@ def chars(s):
 def scratch_dir():
     d = os.environ.get("VERIF_SCRATCH") or tempfile.mkdtemp(prefix="fselect-verif.")
     os.makedirs(d, exist_ok=True)
+    os.chmod(d, 0o755)
     return d
 
 
